@@ -478,6 +478,14 @@ def run(ctx):
     from . import c11
     from .c06 import _Prefixed
     c11.step_rules(_Prefixed(ctx, "last-step-volume-"), m, (("Env", m.env_fn, "order_book"),))
+    # "element k holds the quantity the documentation assigns to index k": the builders read the level-1 / level-2 records, so the
+    # records must hold those quantities - every record field is the live book's query of the same side and quantity (views), the
+    # per-level entries walk touch -/+ i*tick over all levels (level walk), and the bid wrappers differ from the ask wrappers only
+    # by the price inversion (rules shared with C02)
+    from . import c02
+    c02.views(_Prefixed(ctx, "quantity-"), m)
+    c02.level_walk(_Prefixed(ctx, "quantity-"), m)
+    c02.wrappers(_Prefixed(ctx, "quantity-"), m)
     ctx.extra["programs"] = programs
     ctx.extra["disagreements_checked"] = sum(1 for o in ctx.obligations if o["rule"] in ("layout", "dict", "columns"))
     ctx.extra["samples"] = samples
